@@ -298,15 +298,19 @@ LABEL = {"x": "north east", "y": "south", "z": "mid", "": None,
          "w": "a-b", "v": "it's", "u": "up:down", "q": "no #1", "r": 'say "x"', "p": "{b}"}
 
 
-def rl_cfg(bug="none", emit=False, nl=3, maxtotal=2, inv=True):
-    return ('CONSTANTS MaxSheets = 2\nMaxTables = 2\nTableNames = {"A", "B"}\nBug = "%s"\nLabels = {"x", "y"}\nNL = %d\nMaxTotal = %d\nSPECIFICATION LSpec\n%s%sCHECK_DEADLOCK FALSE\n'
-            % (bug, nl, maxtotal, "INVARIANT SpanDenotesTarget\nINVARIANT SingleDenotesTarget\nINVARIANT NoHalfLabels\n" if inv else "", "INVARIANT EmitLabelCase\n" if emit else ""))
+def rl_cfg(bug="none", emit=False, nl=3, maxtotal=2, inv=True, cross=False):
+    return ('CONSTANTS MaxSheets = 2\nMaxTables = 2\nTableNames = {"A", "B"}\nBug = "%s"\nLabels = {"x", "y"}\nNL = %d\nMaxTotal = %d\nCrossOn = %s\nSPECIFICATION LSpec\n%s%sCHECK_DEADLOCK FALSE\n'
+            % (bug, nl, maxtotal, "TRUE" if cross else "FALSE", "INVARIANT SpanDenotesTarget\nINVARIANT SingleDenotesTarget\nINVARIANT NoHalfLabels\n" if inv else "", "INVARIANT EmitLabelCase\n" if emit else ""))
 
 
-def build_label_doc(ns, labs, axis):
-    """tables whose labelled axis has NL lines: axis 'cols' -> one header row holding the labels, 'rows' -> one header column"""
+def build_label_doc(ns, labs, axis, xlabs=None):
+    """tables whose labelled axis has NL lines: axis 'cols' -> one header row holding the labels, 'rows' -> one header column.
+    xlabs (per table a list of labels): the tables ALSO have a header on the other axis, holding these labels (RefLabels.tla xlab);
+    the lines of the labelled axis then start behind that header (line i = column / row index i, not i - 1)"""
     from numbers_parser import Document
-    shape = dict(num_rows=5, num_cols=NL, num_header_rows=1, num_header_cols=0) if axis == "cols" else dict(num_rows=NL, num_cols=5, num_header_rows=0, num_header_cols=1)
+    c = 1 if xlabs is not None else 0
+    shape = (dict(num_rows=5, num_cols=NL + c, num_header_rows=1, num_header_cols=c) if axis == "cols"
+             else dict(num_rows=NL + c, num_cols=5, num_header_rows=c, num_header_cols=1))
     doc = Document(sheet_name=SHEET[1], table_name=TABLE[ns[0][0]], **shape)
     for t in ns[0][1:]:
         doc.sheets[0].add_table(TABLE[t], **shape)
@@ -323,9 +327,15 @@ def build_label_doc(ns, labs, axis):
             for k, l in enumerate(labs[si][ti]):
                 if LABEL[l] is not None:
                     if axis == "cols":
-                        tb.write(0, k, LABEL[l])
+                        tb.write(0, k + c, LABEL[l])
                     else:
-                        tb.write(k, 0, LABEL[l])
+                        tb.write(k + c, 0, LABEL[l])
+            for k, l in enumerate(xlabs[si][ti] if xlabs is not None else []):
+                if LABEL[l] is not None:
+                    if axis == "cols":
+                        tb.write(k + 1, 0, LABEL[l])
+                    else:
+                        tb.write(0, k + 1, LABEL[l])
     return doc
 
 
@@ -348,7 +358,7 @@ def line_node(model, target_tb, axis, i, j, ab, single, hr, hc, cross):
     return make_node(model, target_tb, axis, ends, cross)
 
 
-def parse_line_text(text, axis, snames, single, tnames=()):
+def parse_line_text(text, axis, snames, single, tnames=(), coff=0):
     """the printed reference -> qualifiers and a body of one or two ends, each a label or a line number"""
     out = {"wellformed": False, "num": False, "sq": 0, "tq": "", "l1": "", "l2": "", "n1": 0, "n2": 0, "a1": False, "a2": False}
     if text is None:
@@ -375,12 +385,12 @@ def parse_line_text(text, axis, snames, single, tnames=()):
             kinds.append(("l", tok, a))
             continue
         if axis == "rows" and re.fullmatch(r"\d+", tok):
-            kinds.append(("n", int(tok), a))                # row k (0-based) prints as k+1 = its 1-based line index (no header rows)
+            kinds.append(("n", int(tok) - coff, a))         # row k (0-based) prints as k+1 = its 1-based line index (behind coff header rows)
         elif axis == "cols" and re.fullmatch(r"[A-Z]+", tok):
             n = 0
             for ch in tok:
                 n = n * 26 + ord(ch) - 64
-            kinds.append(("n", n, a))
+            kinds.append(("n", n - coff, a))
         else:
             kinds.append(("l", tok, a))
     if len(kinds) == 1:
@@ -403,7 +413,14 @@ def label_job(job):
     warnings.simplefilter("ignore")
     from numbers_parser import Document
     from numbers_parser.generated import TSCEArchives_pb2 as TSCE
-    doc = build_label_doc(ns, labs, axis)
+    # every fifth job (when its tables are not edited later): the tables have labels on their other axis too, some of them equal to
+    # labels of the referenced axis (RefLabels.tla xlab)
+    xlabs, coff = None, 0
+    if idx % 5 == 2 and idx % 3 != 1:
+        xr = random.Random(idx * 7919 + 13)
+        xlabs = [[xr.sample(["x", "y", "z", "w", "v"], xr.randint(0, 2)) for _ in sh] for sh in ns]
+        coff = 1
+    doc = build_label_doc(ns, labs, axis, xlabs)
     model = doc._model
     plan, used = [], {}
     tabs_all = [(si + 1, ti + 1) for si in range(len(ns)) for ti in range(len(ns[si]))]
@@ -421,8 +438,8 @@ def label_job(job):
             model._formulas.add_table(htb._table_id)
         used[host] = k + 1
         # body cells only: below the header row / right of the header column
-        (hr, hc) = (1 + k // NL, k % NL) if axis == "cols" else (k % NL, 1 + k // NL)
-        node = line_node(model, ttb, axis, i - 1, j - 1, ab, single, hr, hc, host != target)
+        (hr, hc) = (1 + k // NL, k % NL + coff) if axis == "cols" else (k % NL + coff, 1 + k // NL)
+        node = line_node(model, ttb, axis, i - 1 + coff, j - 1 + coff, ab, single, hr, hc, host != target)
         htb.write(hr, hc, 1.0)
         key = model._formulas.lookup_key(htb._table_id, TSCE.FormulaArchive(**{"AST_node_array": {"AST_node": [node]}}))
         htb.rows()[hr][hc]._formula_id = key
@@ -436,18 +453,27 @@ def label_job(job):
         for sh in d.sheets:
             seen.append([])
             for tb in sh.tables:
-                seen[-1].append([(tb.cell(0, k) if axis == "cols" else tb.cell(k, 0)).formatted_value or "" for k in range(NL)])
+                seen[-1].append([(tb.cell(0, k + coff) if axis == "cols" else tb.cell(k + coff, 0)).formatted_value or "" for k in range(NL)])
+        # the labels on the other axis that name a line there: non-empty and not repeated on that axis
+        xseen = []
+        for sh in d.sheets:
+            xseen.append([])
+            for tb in sh.tables:
+                other = []
+                if coff:
+                    other = [(tb.cell(r, 0) if axis == "cols" else tb.cell(0, r)).formatted_value or "" for r in range(1, tb.num_rows if axis == "cols" else tb.num_cols)]
+                xseen[-1].append(sorted({x for x in other if x and other.count(x) == 1}))
         for p in plan:
             tb = d.sheets[p["host"][0] - 1].tables[p["host"][1] - 1]
             e = dict(p)
-            e.update(phase=phase, ns=names, labs=seen)
+            e.update(phase=phase, ns=names, labs=seen, xlabs=xseen)
             try:
                 text = tb.cell(p["hr"], p["hc"]).formula
             except Exception as ex:  # noqa: BLE001
                 text = None
                 e["exc"] = "%s:%s" % (type(ex).__name__, str(ex)[:60])
             e["text"] = text
-            e.update(parse_line_text(text, axis, snames, p["single"], {x for row in names for x in row}))
+            e.update(parse_line_text(text, axis, snames, p["single"], {x for row in names for x in row}, coff))
             events.append(e)
     observe(doc, "open")
     if idx % 3 == 1:
@@ -476,7 +502,7 @@ def label_job(job):
     return events
 
 
-LKEYS = ("ns", "labs", "host", "target", "i", "j", "ab", "single", "wellformed", "num", "sq", "tq", "l1", "l2", "n1", "n2", "a1", "a2")
+LKEYS = ("ns", "labs", "xlabs", "host", "target", "i", "j", "ab", "single", "wellformed", "num", "sq", "tq", "l1", "l2", "n1", "n2", "a1", "a2")
 
 
 def judge_labels(ctx, events, count=True):
@@ -496,8 +522,9 @@ def judge_labels(ctx, events, count=True):
             ctx.traces += len(part)
         for tid, (v, d) in seen.items():
             e = part[tid - 1]
-            where = "namespace %s labels %s (%s) host %s cell (%d,%d) -> target %s lines %d..%d %s%s prints %r (%s)" % (
-                json.dumps(e["ns"]), json.dumps(e["labs"]), e["axis"], e["host"], e["hr"], e["hc"], e["target"], e["i"], e["j"],
+            where = "namespace %s labels %s%s (%s) host %s cell (%d,%d) -> target %s lines %d..%d %s%s prints %r (%s)" % (
+                json.dumps(e["ns"]), json.dumps(e["labs"]), (" other-axis labels " + json.dumps(e["xlabs"])) if any(x for sh in e["xlabs"] for x in sh) else "",
+                e["axis"], e["host"], e["hr"], e["hc"], e["target"], e["i"], e["j"],
                 "absolute" if e["ab"] else "relative", " single" if e["single"] else "", e["text"], e["phase"])
             if v != "ok":
                 ctx.fail({"engine": "trace-labels", "clause": v, "axis": e["axis"], "phase": e["phase"], "single": e["single"], "cross": e["host"] != e["target"],
@@ -622,6 +649,8 @@ def run(ctx):
         return False
     ctx.tlc("RefLabels", rl_cfg(emit=True, nl=3, maxtotal=2), what="MC_RefLabels[<=2 tables, 3 lines, labels x y or empty]", stream_to=lhandle, timeout=3000)
     ctx.tlc("RefLabels", rl_cfg(nl=2, maxtotal=3), what="MC_RefLabels[<=3 tables, 2 lines]", timeout=3000)
+    ctx.tlc("RefLabels", rl_cfg(nl=2, maxtotal=2, cross=True), what="MC_RefLabels[<=2 tables, 2 lines, labels on both axes]", timeout=3000)
+    ctx.tlc("RefLabels", rl_cfg("CrossAxisIgnored", nl=2, maxtotal=2, cross=True), what="Bug_CrossAxisIgnored", expect_violation=True, count=False)
     if not q:
         ctx.tlc("RefLabels", rl_cfg(nl=3, maxtotal=3), what="MC_RefLabels[<=3 tables, 3 lines]", timeout=7200, heap="12g")
     for b in ("EmptyLabelUsable", "SpanEndUnchecked", "SheetScopeAnywhere"):
